@@ -16,20 +16,21 @@ def parseFiles (l : List Json) : Except String (List (Path × List Str)) :=
 
 def reportJ (r : Report) : Json :=
   obj [("kind", Json.str r.kind.name), ("file", strToJson r.file), ("lineno", optJ nat r.lineno),
-       ("str", strToJson r.str), ("ctx", optJ strToJson r.getContext)]
+       ("str", strToJson r.str), ("ctx", optJ strToJson r.getContext), ("msg", strToJson r.kind.message)]
+
+def openMessage (p : Path) : Str := "unable to open ".toList ++ p ++ ". No such file or directory".toList
 
 def fatalJ : Fatal → Json
   | .aux e => reportJ e
   | .cannotOpen p =>
     obj [("kind", Json.str "open"), ("file", Json.null), ("lineno", Json.null),
-         ("str", strToJson ("unable to open ".toList ++ p ++ ". No such file or directory".toList)),
-         ("ctx", Json.null)]
+         ("str", strToJson (openMessage p)), ("ctx", Json.null), ("msg", strToJson (openMessage p))]
   | .outOfFuel =>
     obj [("kind", Json.str "MODEL:out_of_fuel"), ("file", Json.null), ("lineno", Json.null),
-         ("str", Json.null), ("ctx", Json.null)]
+         ("str", Json.null), ("ctx", Json.null), ("msg", Json.null)]
   | .attributeError =>
     obj [("kind", Json.str "MODEL:attribute_error"), ("file", Json.null), ("lineno", Json.null),
-         ("str", Json.null), ("ctx", Json.null)]
+         ("str", Json.null), ("ctx", Json.null), ("msg", Json.null)]
 
 def outJ : Except Abort St → Json
   | .ok st =>
